@@ -39,21 +39,25 @@ var Rec *Recorder
 // Watchdog: an invocation of a scripted property takes micro- to milliseconds; one that is still running after
 // HangAfter has hung inside the library (the properties themselves never loop).  The trace is closed in a
 // well-formed way (hang, scen.end, harness.done) and the process exits, since the stuck goroutine cannot be stopped.
+// (Since a hang can also happen between invocations -- in T.cleanup, in the shrinker -- the watchdog looks at the engine call as a whole:
+// while one is in progress, HangAfter without a single event recorded or offered for recording means nothing is moving.)
 var (
-	HangAfter   = 90 * time.Second
-	invStarted  atomic.Int64 // unix nanoseconds of the start of the invocation in progress, 0 if none
-	curScenario atomic.Value
+	HangAfter    = 90 * time.Second
+	busy         atomic.Int32 // engine calls / invocations in progress
+	lastProgress atomic.Int64 // unix nanoseconds of the last sign of life
+	curScenario  atomic.Value
 )
 
-func InvStart() { invStarted.Store(time.Now().UnixNano()) }
-func InvStop()  { invStarted.Store(0) }
+func progress()  { lastProgress.Store(time.Now().UnixNano()) }
+func InvStart()  { progress(); busy.Add(1) }
+func InvStop()   { progress(); busy.Add(-1) }
 
 func StartWatchdog(r *Recorder) {
 	go func() {
 		for {
 			time.Sleep(time.Second)
-			s := invStarted.Load()
-			if s != 0 && time.Since(time.Unix(0, s)) > HangAfter {
+			s := lastProgress.Load()
+			if busy.Load() > 0 && s != 0 && time.Since(time.Unix(0, s)) > HangAfter {
 				id, _ := curScenario.Load().(string)
 				r.forceEmit("hang", F{"scenario": id, "seconds": int(time.Since(time.Unix(0, s)).Seconds())})
 				r.forceEmit("scen.end", F{"id": id, "hung": true})
@@ -114,6 +118,7 @@ func (r *Recorder) Emit(ev string, f F) {
 	if r == nil {
 		return
 	}
+	progress()
 	r.mu.Lock()
 	defer r.mu.Unlock()
 	if r.paused > 0 || !r.Wants(ev) {
@@ -284,6 +289,7 @@ func conv(v any) any {
 // InstallSink routes hook events into the recorder.
 func InstallSink(r *Recorder, onEvent func(ev string, kv []any)) {
 	rapid.VerifSetSink(func(ev string, kv []any) {
+		progress()
 		if onEvent != nil {
 			onEvent(ev, kv)
 		}
